@@ -1434,13 +1434,17 @@ func FunExpr(query *Query, current Map, expr *sqlparser.FuncExpr, opts ...ExprOp
 				return nil, e
 			}
 			var rs any
-			var err error
 			query.wg.Add(1)
 			go func() {
-				rs, err = function(query, current, nil, slice)
+				// the error stays in this goroutine: the caller has long returned
+				value, err := function(query, current, nil, slice)
+				if err != nil && query.options.errors != nil {
+					query.options.errors(err)
+				}
+				rs = value
 				query.wg.Done()
 			}()
-			return &rs, err
+			return &rs, nil
 		}
 	case "spin":
 		{
